@@ -3,11 +3,14 @@ package checks
 import (
 	"bytes"
 	"fmt"
+	"strings"
 
 	"github.com/DrmagicE/gmqtt/server"
+	"github.com/DrmagicE/gmqtt/zzverif/vsched"
 
 	"verif/explore"
 	"verif/harness"
+	"verif/refmqtt"
 )
 
 func init() { register("C18", runC18) }
@@ -197,7 +200,7 @@ func c18Write(c *explore.Ctx, sizes []int) {
 
 func runC18(c *explore.Ctx) {
 	c.Level = "exploration"
-	c.Rule = "E5: every sequence of <=3 binary websocket messages with sizes 0..6 x every cyclic pattern of <=3 Read sizes 1..7, plus boundary message sizes around the 1024-byte bufio reader x boundary read sizes, plus text messages at every position, fed through the broker's real upgrader and wsConn adapter (frames built by an independent RFC 6455 framer); concatenation of reads must equal concatenation of binary payloads; writes must come out as unmasked binary frames whose concatenation is the written stream. distinct_nontrivial = cases with more than one payload byte."
+	c.Rule = "E5: every sequence of <=3 binary websocket messages with sizes 0..6 x every cyclic pattern of <=3 Read sizes 1..7, plus boundary message sizes around the 1024-byte bufio reader x boundary read sizes, plus text messages at every position, fed through the broker's real upgrader and wsConn adapter (frames built by an independent RFC 6455 framer); concatenation of reads must equal concatenation of binary payloads; writes must come out as unmasked binary frames whose concatenation is the written stream. Broker scope: a valid MQTT stream (CONNECT, SUBSCRIBE, 3 PUBLISH incl. a 1100-byte one, PINGREQ) through the real websocket handler and a real broker under every single cut, every pair of cuts in the first 24/40 bytes, one-byte messages, 1023/1024/1025-byte messages, and packed messages larger than a small max_packet_size: the replies must be exactly CONNACK, SUBACK, the echoed publishes and PINGRESP in binary frames. distinct_nontrivial = cases with more than one payload byte."
 	c.Trusted = []string{"harness RFC 6455 framer/parser", "in-memory conn"}
 	var msgSeqs [][]wsMsg
 	var rec func(cur []wsMsg)
@@ -278,4 +281,188 @@ func runC18(c *explore.Ctx) {
 	})
 	ws := [][]int{{0}, {1}, {125}, {126}, {127}, {1024}, {65535}, {65536}, {1, 126, 3}, {1024, 1024, 1}, {0, 5, 0}}
 	c.Units("write", len(ws), func(u int) { c18Write(c, ws[u]) })
+	c18BrokerAll(c)
+}
+
+// ---- broker scope: a valid MQTT stream through the real websocket handler under
+// many segmentations into binary messages
+
+func c18Stream(big bool) (stream []byte, wantTypes []string) {
+	add := func(p *refmqtt.Packet) { p.Version = refmqtt.V5; stream = append(stream, refmqtt.Encode(p)...) }
+	add(harness.ConnectPacket(harness.ConnectOpts{ClientID: "wsc", Clean: true, Version: refmqtt.V5}))
+	add(&refmqtt.Packet{Type: refmqtt.SUBSCRIBE, PacketID: 1, Subs: []refmqtt.Sub{{Filter: "t", QoS: 0}}})
+	sizes := []int{0, 10, 100}
+	if big {
+		sizes = []int{0, 10, 1100}
+	}
+	for i, n := range sizes {
+		add(&refmqtt.Packet{Type: refmqtt.PUBLISH, Topic: "t", Payload: []byte(strings.Repeat(string(rune('a'+i)), n))})
+	}
+	add(&refmqtt.Packet{Type: refmqtt.PINGREQ})
+	wantTypes = []string{"CONNACK", "SUBACK"}
+	for i, n := range sizes {
+		wantTypes = append(wantTypes, fmt.Sprintf("PUBLISH:%d:%c", n, 'a'+i))
+	}
+	wantTypes = append(wantTypes, "PINGRESP")
+	return
+}
+
+func c18Broker(c *explore.Ctx, maxPacket uint32, big bool, cuts []int, label string) {
+	stream, want := c18Stream(big)
+	cas := func() any {
+		return map[string]any{"part": "broker", "max_packet_size": maxPacket, "stream_len": len(stream), "cut_positions": cuts, "segmentation": label}
+	}
+	c.Count("evaluations", 1)
+	c.Count("distinct_nontrivial", 1)
+	execBody(c, "C18", cas, func() {
+		cfg := harness.DefaultConfig()
+		if maxPacket != 0 {
+			cfg.MQTT.MaxPacketSize = maxPacket
+		}
+		w := harness.NewWorld(cfg, server.Hooks{})
+		if w.InitErr != nil {
+			c.Fatal("init: %v", w.InitErr)
+			return
+		}
+		cli, srvc := harness.Pipe("ws", 1<<22)
+		vsched.Go("wsHandler", func() { server.VerifServeWS(w.Srv, srvc) })
+		vsched.Settle()
+		prev := 0
+		n := 0
+		for _, cut := range append(append([]int{}, cuts...), len(stream)) {
+			if cut <= prev || cut > len(stream) {
+				continue
+			}
+			n++
+			cli.Write(harness.WSClientFrame(harness.WSBinary, stream[prev:cut], true, [4]byte{byte(n), 3, 5, 7}))
+			prev = cut
+			vsched.Settle()
+		}
+		raw, ok := harness.SkipHTTPResponse(cli.TakeAll())
+		if !ok {
+			c.Violate("ws-broker", "no-upgrade-response", cas(), "HTTP 101", "none")
+			return
+		}
+		frames, rest, err := harness.WSParseFrames(raw)
+		if err != nil || len(rest) != 0 {
+			c.Violate("ws-broker", "unparseable-frames-from-broker", cas(), "complete frames", fmt.Sprint(err, len(rest)))
+			return
+		}
+		var out []byte
+		for _, f := range frames {
+			if f.Opcode == harness.WSClose {
+				c.Violate("ws-broker", fmt.Sprintf("connection-closed-by-broker-%x", f.Payload), cas(), "stream served", fmt.Sprintf("close frame %x; errors %v", f.Payload, w.Closeds))
+				return
+			}
+			if f.Opcode != harness.WSBinary {
+				c.Violate("ws-broker", fmt.Sprintf("non-binary-frame-opcode-%d", f.Opcode), cas(), "binary", fmt.Sprint(f.Opcode))
+				return
+			}
+			out = append(out, f.Payload...)
+		}
+		var got []string
+		for len(out) > 0 {
+			p, k, err := refmqtt.Decode(out, refmqtt.V5)
+			if err != nil || k == 0 {
+				c.Violate("ws-broker", "reply-stream-does-not-parse", cas(), strings.Join(want, " "), strings.Join(got, " ")+fmt.Sprint(" then ", err))
+				return
+			}
+			out = out[k:]
+			switch p.Type {
+			case refmqtt.PUBLISH:
+				ch := byte('?')
+				if len(p.Payload) > 0 {
+					ch = p.Payload[0]
+					for _, b := range p.Payload {
+						if b != ch {
+							ch = '!'
+						}
+					}
+				} else {
+					ch = 'a'
+				}
+				got = append(got, fmt.Sprintf("PUBLISH:%d:%c", len(p.Payload), ch))
+			default:
+				got = append(got, refmqtt.TypeNames[p.Type])
+			}
+		}
+		// forwarded publishes travel through the session queue and may be overtaken by the
+		// PINGRESP: compare control replies and publishes as two ordered sequences
+		split := func(in []string) (ctl, pubs string) {
+			for _, x := range in {
+				if strings.HasPrefix(x, "PUBLISH") {
+					pubs += x + " "
+				} else {
+					ctl += x + " "
+				}
+			}
+			return
+		}
+		gc, gp := split(got)
+		wc, wp := split(want)
+		if gc != wc || gp != wp {
+			cl := "replies-differ"
+			if len(got) < len(want) {
+				cl = "stream-cut-short-or-corrupted"
+			}
+			if cli.PeerClosed() {
+				cl += "-connection-dropped"
+			}
+			c.Violate("ws-broker", cl, cas(), strings.Join(want, " "), strings.Join(got, " ")+fmt.Sprint(" errors ", w.Closeds))
+		}
+		cli.Close()
+		vsched.Settle()
+	})
+}
+
+func c18BrokerAll(c *explore.Ctx) {
+	type job struct {
+		maxPacket uint32
+		big       bool
+		cuts      []int
+		label     string
+	}
+	var jobs []job
+	for _, big := range []bool{false, true} {
+		stream, _ := c18Stream(big)
+		L := len(stream)
+		jobs = append(jobs, job{0, big, nil, "one message"})
+		for i := 1; i < L; i++ {
+			if !big || i < 80 || i%7 == 0 || i > L-40 {
+				jobs = append(jobs, job{0, big, []int{i}, "one cut"})
+			}
+		}
+		lim := 40
+		if c.Quick() {
+			lim = 24
+		}
+		for i := 1; i < lim; i++ {
+			for j := i + 1; j < lim; j++ {
+				jobs = append(jobs, job{0, big, []int{i, j}, "two cuts"})
+			}
+		}
+		var ones []int
+		for i := 1; i <= 48 && i < L; i++ {
+			ones = append(ones, i)
+		}
+		jobs = append(jobs, job{0, big, ones, "one-byte messages for the first 48 bytes"})
+		if big {
+			// messages of exactly 1023 / 1024 / 1025 bytes
+			for _, sz := range []int{1023, 1024, 1025} {
+				for start := 0; start+sz <= L; start += 17 {
+					jobs = append(jobs, job{0, big, []int{start, start + sz}, fmt.Sprintf("a %d-byte message", sz)})
+				}
+			}
+		}
+	}
+	// small configured max_packet_size: many in-limit packets packed into one large message
+	jobs = append(jobs, job{128, false, nil, "all packets in one message larger than max_packet_size"}, job{128, false, []int{40}, "two messages, second larger than max_packet_size"})
+	c.Extra["broker_segmentations"] = len(jobs)
+	c.Units("broker", len(jobs), func(u int) {
+		j := jobs[u]
+		c18Broker(c, j.maxPacket, j.big, j.cuts, j.label)
+		if u%211 == 0 {
+			c.Sample(map[string]any{"part": "broker", "segmentation": j.label, "cuts": j.cuts})
+		}
+	})
 }
